@@ -281,6 +281,7 @@ pub struct BatchOut {
     pub wall_s: f64,
     pub determinism_pairs: u64,
     pub determinism_mismatches: u64,
+    pub det_mismatch_runs: Vec<u64>,
     pub profiles: BTreeMap<String, u64>,
     pub sys_len: u64,
 }
@@ -728,6 +729,7 @@ pub fn run_batch(cfg: &BatchCfg) -> Result<BatchOut, String> {
         wall_s: 0.0,
         determinism_pairs: 0,
         determinism_mismatches: 0,
+        det_mismatch_runs: vec![],
         profiles: BTreeMap::new(),
         sys_len,
     };
@@ -759,6 +761,7 @@ pub fn run_batch(cfg: &BatchCfg) -> Result<BatchOut, String> {
                         out.determinism_pairs += 1;
                         if *a != (r.1, r.2) {
                             out.determinism_mismatches += 1;
+                            out.det_mismatch_runs.push(r.0);
                         }
                     }
                 }
@@ -802,4 +805,44 @@ pub fn write_replay(dir: &Path, name: &str, f: &ReplayFile) -> Result<PathBuf, S
     let p = dir.join(name);
     std::fs::write(&p, f.render()).map_err(|e| e.to_string())?;
     Ok(p)
+}
+
+
+/// The op list of run `i` of a batch (executed in a forked process).
+pub fn ops_of_run(cfg: &BatchCfg, i: u64, env: &mut Env) -> Result<(Vec<TOp>, String), String> {
+    let sys_hist = if cfg.prop == Prop::C02 { gen::systematic_c02_histories(cfg.sys_max_n) } else { vec![] };
+    let sys = SysPrefix { hist: sys_hist, variants: cfg.sys_variants };
+    let pools = Pools::new(cfg.verif_seed);
+    let scratch = env.dir.join("ops-of-run.out");
+    let out = crate::fork::isolated(&scratch, std::time::Duration::from_secs(900), || {
+        let r = run_index(cfg.prop, cfg.verif_seed, i, &pools, &sys, env);
+        let mut t = format!("{}\n", r.swarm);
+        for o in &r.ops {
+            t.push_str(&o.to_text());
+            t.push('\n');
+        }
+        t
+    });
+    match out {
+        crate::fork::ForkOut::Ok(t) => {
+            let mut it = t.lines();
+            let swarm = it.next().unwrap_or("").to_string();
+            let ops = it.map(|l| TOp::from_text(l).ok_or_else(|| format!("bad op: {}", l))).collect::<Result<Vec<_>, _>>()?;
+            Ok((ops, swarm))
+        }
+        crate::fork::ForkOut::Died(d) => Err(d),
+    }
+}
+
+/// Digest (everything observed: waveform hashes, return values) of a history executed in a forked process.
+pub fn digest_of_ops(prop: Prop, ops: &[TOp], env: &mut Env) -> Result<String, String> {
+    let scratch = env.dir.join("digest.out");
+    let ops_v = ops.to_vec();
+    match crate::fork::isolated(&scratch, std::time::Duration::from_secs(900), || {
+        let r = run_ops(prop, &ops_v, env);
+        format!("{:016x}:{:016x}:{}", r.trace_hash, r.digest, r.violation.map(|v| v.signature()).unwrap_or_default())
+    }) {
+        crate::fork::ForkOut::Ok(t) => Ok(t),
+        crate::fork::ForkOut::Died(d) => Err(d),
+    }
 }
